@@ -520,6 +520,11 @@ def to_domain(model):
                 v = v[0]
             ann[k] = v
         o.annotation = ann
+    # a formula that the fbc grammar rejects (salmonella.xml.gz carries 'C2970H5292N202O1896P4charge297') is written as it
+    # is and makes the document invalid: outside the domain (observation, not claimed)
+    for met in model.metabolites:
+        if met.formula and not re.fullmatch(r"([A-Z][a-z]*[0-9]*)+", met.formula):
+            met.formula = None
     return model
 
 
